@@ -4,7 +4,11 @@
 property's quick check against /repo with the change applied. Prints a summary dict as JSON."""
 import json, os, re, shutil, subprocess, sys
 prop, n = sys.argv[1], sys.argv[2]
-out = "/tmp/seed-%s.out" % prop
+rnd = 1
+if "--round" in sys.argv:
+    rnd = int(sys.argv[sys.argv.index("--round") + 1])
+out = ("/tmp/seed-%s.out" if rnd == 1 else "/tmp/seed%d-%%s.out" % rnd) % prop
+sid = str(int(n) + 3 * (rnd - 1))
 diff = os.path.join(out, "change%s.diff" % n)
 demo = os.path.join(out, "demo%s_test.go" % n)
 env = dict(os.environ, GOFLAGS="-mod=mod", GOPROXY="off", GOSUMDB="off", GOTOOLCHAIN="local")
@@ -24,7 +28,7 @@ tags = re.search(r"-tags[ =](\S+)", cmdtxt)
 run = re.search(r"-run[ =]'?\"?([\w^$|]+)", cmdtxt)
 race = "-race" in cmdtxt
 res["pkgdir"] = pkgdir
-wt = "/tmp/seedv-%s-%s" % (prop, n)
+wt = "/tmp/seedv-%s-%s" % (prop, sid)
 subprocess.run(["git", "-C", "/repo", "worktree", "remove", "--force", wt], capture_output=True)
 subprocess.run(["git", "-C", "/repo", "worktree", "add", "-q", "--detach", wt, "HEAD"], check=True)
 def gotest(extra):
@@ -65,7 +69,7 @@ if "--in-repo" in sys.argv:
     subprocess.run(["git", "-C", "/repo", "apply", diff], check=True)
     cenv = dict(os.environ)
 else:
-    wt2 = "/tmp/seedc-%s-%s" % (prop, n)
+    wt2 = "/tmp/seedc-%s-%s" % (prop, sid)
     subprocess.run(["git", "-C", "/repo", "worktree", "remove", "--force", wt2], capture_output=True)
     subprocess.run(["git", "-C", "/repo", "worktree", "add", "-q", "--detach", wt2, "HEAD"], check=True)
     subprocess.run(["git", "apply", diff], cwd=wt2, check=True)
@@ -82,7 +86,7 @@ finally:
 ok = res.get("demo_passes_without_change") and res.get("applies") and res.get("demo_fails_with_change") and res.get("existing_tests_pass_with_change")
 res["confirmed"] = bool(ok)
 if ok:
-    d = "/verif/seeded/%s-%s" % (prop, n)
+    d = "/verif/seeded/%s-%s" % (prop, sid)
     os.makedirs(d, exist_ok=True)
     shutil.copy(diff, os.path.join(d, "patch.diff"))
     shutil.copy(demo, os.path.join(d, "demo_test.go.txt"))
